@@ -814,6 +814,7 @@ func emptyMgmt(c pomCase, variant string) int {
 func renderPom(c pomCase, lr *rand.Rand, variant string) string {
 	commentInVersion, cdataInVersion := variant == "c", variant == "d"
 	shape := emptyMgmt(c, variant)
+	wsr := layoutRng(layoutKey(c) + "#wsid")
 	var sb strings.Builder
 	ind := []string{"  ", "    ", "\t"}[lr.Intn(3)]
 	if lr.Intn(2) == 0 {
@@ -999,7 +1000,18 @@ func renderPom(c pomCase, lr *rand.Rand, variant string) string {
 		w(1, "<profiles>")
 		for _, id := range profs {
 			w(2, "<profile>")
-			w(3, "<id>"+strings.TrimPrefix(id, "profile@")+"</id>")
+			// every fourth profile / plugin spells its identifying elements with white space around the text (fix 02ba8cea: Read trims
+			// it, the writer compared the raw text and dropped the updates of the profile's / plugin's dependencies)
+			switch wsr.Intn(8) {
+			case 0:
+				w(3, "<id> "+strings.TrimPrefix(id, "profile@")+" </id>")
+			case 1:
+				w(3, "<id>")
+				w(4, strings.TrimPrefix(id, "profile@"))
+				w(3, "</id>")
+			default:
+				w(3, "<id>"+strings.TrimPrefix(id, "profile@")+"</id>")
+			}
 			section(3, id)
 			w(2, "</profile>")
 		}
@@ -1030,10 +1042,19 @@ func renderPom(c pomCase, lr *rand.Rand, variant string) string {
 		for _, o := range plugs {
 			g, a, _ := strings.Cut(strings.TrimPrefix(o, "plugin@"), ":")
 			w(4, "<plugin>")
-			if g != "" {
-				w(5, "<groupId>"+g+"</groupId>")
+			if wsr.Intn(4) == 0 {
+				if g != "" {
+					w(5, "<groupId> "+g+" </groupId>")
+				}
+				w(5, "<artifactId>")
+				w(6, a)
+				w(5, "</artifactId>")
+			} else {
+				if g != "" {
+					w(5, "<groupId>"+g+"</groupId>")
+				}
+				w(5, "<artifactId>"+a+"</artifactId>")
 			}
-			w(5, "<artifactId>"+a+"</artifactId>")
 			w(5, "<version>3.1</version>")
 			w(5, "<dependencies>")
 			for _, d := range c.deps {
@@ -2043,9 +2064,32 @@ func genPch(r *rand.Rand) pchCase {
 	return c
 }
 
-// pchCrossLevelProperty / pchParentProfile: shapes the unrepaired writer does not handle (see known_findings.txt); no-ops here.
-func pchCrossLevelProperty(r *rand.Rand, c pchCase, d *pchDecl) {}
-func pchParentProfile(r *rand.Rand, d *pchDecl)               {}
+// pchCrossLevelProperty (fix 95fbdd2e): two times out of three the definition of the property that takes effect is NOT in the pom
+// that declares the entry: an ancestor defines it (the usual versions-in-the-parent layout), or a pom below overrides it — then the
+// declaring pom may carry a definition of its own that is not the one in force.  The patch has to go to the file whose definition
+// counts (it was filed under the declaring file: nothing written, or the overridden definition rewritten, and Write returned nil).
+func pchCrossLevelProperty(r *rand.Rand, c pchCase, d *pchDecl) {
+	switch r.Intn(3) {
+	case 0:
+		if d.Level < c.Depth {
+			d.PropLevel = d.Level + 1 + r.Intn(c.Depth-d.Level)
+		}
+	case 1:
+		if d.Level > 0 {
+			d.PropLevel = r.Intn(d.Level)
+			d.Decoy = r.Intn(2) == 0
+		}
+	}
+}
+
+// pchParentProfile (fix 8949b234): the entry moves into a profile of the PARENT that declares it.  It is then no requirement of the
+// manifest; an update naming its key is filed under the origin parent@<path>@profile@<id>[@management], which parentPathFromOrigin
+// took apart wrongly (the rest joined without separators), so that Write returned nil and wrote the new version nowhere.
+func pchParentProfile(r *rand.Rand, d *pchDecl) {
+	if d.Level > 0 && d.G == "" {
+		d.Profile = []string{"p1", "p2"}[r.Intn(2)]
+	}
+}
 
 // ---------------------------------------------------------------------------------------------- main
 
